@@ -5,6 +5,7 @@ Inductive gop :=
 | GJoin (c : cid) (ss : list sid) (e : N) (res : N)
 | GLeave (c : cid) (e : N) (res : N)
 | GSDel (s : sid) (e : N) (res : N)
+| GParts (s : sid) (n : Z)        (* the stream is created again with n partitions *)
 | GObs (epoch : N) (members : list cid) (tbl : list (cid * sid * list Z)).
 
 Record gcase := { gc_parts : list (sid * Z); gc_ops : list gop }.
@@ -34,6 +35,7 @@ Definition gstep (np : sid -> Z) (g : group) (o : gop) : group * bool :=
   | GJoin c ss e res => let r := add_member np g c ss e in (res_group g r, N.eqb (res_code r) res)
   | GLeave c e res => let r := remove_member np g c e in (res_group g r, N.eqb (res_code r) res)
   | GSDel s e res => let r := stream_deleted np g s e in (res_group g r, N.eqb (res_code r) res)
+  | GParts _ _ => (g, true)
   | GObs ep ms tbl =>
     (g, N.eqb (g_epoch g) ep &&
         nlist_eqb (sort_n (map m_id (g_members g))) ms &&
@@ -41,16 +43,17 @@ Definition gstep (np : sid -> Z) (g : group) (o : gop) : group * bool :=
         (Z.of_nat (length (g_owners g)) =? fold_left (fun a row => a + Z.of_nat (length (snd row))) tbl 0))
   end.
 
-Fixpoint grun (np : sid -> Z) (g : group) (ops : list gop) (i : nat) : option nat :=
+Fixpoint grun (tbl : list (sid * Z)) (g : group) (ops : list gop) (i : nat) : option nat :=
   match ops with
   | [] => None
-  | o :: r => let '(g', ok) := gstep np g o in if ok then grun np g' r (S i) else Some i
+  | GParts s n :: r => grun ((s, n) :: tbl) g r (S i)
+  | o :: r => let '(g', ok) := gstep (parts_fn tbl) g o in if ok then grun tbl g' r (S i) else Some i
   end.
 
 Fixpoint gcases_mismatches (cs : list gcase) (i : nat) : list (nat * nat) :=
   match cs with
   | [] => []
-  | c :: r => match grun (parts_fn (gc_parts c)) new_group (gc_ops c) 0 with
+  | c :: r => match grun (gc_parts c) new_group (gc_ops c) 0 with
               | None => gcases_mismatches r (S i)
               | Some j => (i, j) :: gcases_mismatches r (S i)
               end
